@@ -832,6 +832,24 @@ func ruleTabQual(c *Ctx, r *Rep) {
 				continue
 			}
 			k, ok := caseLabel(ci.Block(), func(v ssa.Value) bool { return am != nil && types.Identical(v.Type(), am) })
+			if !ok {
+				// the encoding was taken out of the loop: the label is where its bytes are written
+				if call, isCall := ci.(*ssa.Call); isCall {
+					for _, ref := range *call.Referrers() {
+						ex, isEx := ref.(*ssa.Extract)
+						if !isEx || ex.Index != 0 {
+							continue
+						}
+						for _, use := range *ex.Referrers() {
+							if uc, isUse := use.(ssa.CallInstruction); isUse {
+								if k2, ok2 := caseLabel(uc.Block(), func(v ssa.Value) bool { return am != nil && types.Identical(v.Type(), am) }); ok2 {
+									k, ok = k2, true
+								}
+							}
+						}
+					}
+				}
+			}
 			name := ""
 			if ok {
 				name = c.constName(am, k.Value)
@@ -1222,8 +1240,33 @@ func ruleTabSuffix(c *Ctx, r *Rep) {
 			} else {
 				continue
 			}
-			call, ok := ci.Common().Args[0].(*ssa.Call)
-			if !ok || calleeFullName(call) != "strings.ToLower" {
+			isLowered := func(v ssa.Value) bool {
+				call, ok := v.(*ssa.Call)
+				return ok && calleeFullName(call) == "strings.ToLower"
+			}
+			arg := ci.Common().Args[0]
+			okLower := isLowered(arg)
+			if prm, isP := arg.(*ssa.Parameter); isP && !okLower {
+				// a predicate helper: every caller hands in the lower-cased name
+				n, all := 0, true
+				for i, q := range fn.Params {
+					if q != prm {
+						continue
+					}
+					for _, caller := range c.Funcs {
+						for _, site := range callsIn(caller) {
+							if site.Common().StaticCallee() == fn && i < len(site.Common().Args) {
+								n++
+								if !isLowered(site.Common().Args[i]) {
+									all = false
+								}
+							}
+						}
+					}
+				}
+				okLower = n > 0 && all
+			}
+			if !okLower {
 				allLower = false
 			}
 		}
